@@ -141,3 +141,57 @@ fn c24_ownership_registers_new() {
 
 // (a harness for Normal::check_contract_in_inputs over a BTreeSet<ContractId> did not finish in CBMC within 20 minutes
 // even with a single concrete entry; the function is `contains` + set panic context and stays unverified.)
+
+// ---- C24 (crypto writer): ECR1 = secp256r1_recover.  The curve arithmetic is replaced by a stub whose
+// verdict is chosen by the harness (ASSUMED library behaviour); proved: where the result goes, that
+// the destination must be owned on BOTH outcomes, and that nothing else changes.
+/// library model: the verdict and the recovered key are (arbitrary) functions of the signature bytes
+pub fn r1_recover_stub(sig: &fuel_types::Bytes64, _msg: &fuel_crypto::Message) -> Result<fuel_types::Bytes64, fuel_crypto::Error> {
+    if sig[0] & 1 == 1 { Ok(fuel_types::Bytes64::from([sig[1] ^ 0x5a; 64])) } else { Err(fuel_crypto::Error::InvalidSignature) }
+}
+
+//@ props=C24 tier=quick class=bounded(stack=160) timeout=2400 -- ECR1 (secp256r1_recover, library stubbed): on library success the 64 destination bytes receive the key and $err = 0, on failure they are zeroed and $err = 1; in BOTH cases an unowned / inaccessible destination is refused (MemoryOwnership / UninitalizedMemoryAccess / MemoryOverflow) with memory and $err unchanged; only the destination range changes
+#[kani::proof]
+#[kani::unwind(170)]
+#[kani::stub(fuel_crypto::secp256r1::recover, r1_recover_stub)]
+fn c24_ecr1_destination_ownership() {
+    let mut m = MemoryInstance::new();
+    m.grow_stack(160).unwrap();
+    let fillb: u8 = kani::any();
+    // destination area pre-filled with a symbolic byte so that "unchanged" and "zeroed" differ
+    let mut i = 0; while i < 160 { m.stack[i] = fillb; i += 1; }
+    let (ssp, sp): (u64, u64) = (kani::any(), kani::any());
+    kani::assume(ssp <= sp && sp <= 160);
+    let owner = OwnershipRegisters { sp, ssp, hp: VM_MAX_RAM, prev_hp: VM_MAX_RAM };
+    let (a, b, c): (u64, u64, u64) = (kani::any(), kani::any(), kani::any());
+    // every stack byte is `fillb`, so the signature read at b starts with fillb: verdict and key follow from it
+    let ok = fillb & 1 == 1;
+    let key = fillb ^ 0x5a;
+    let mut err: Word = kani::any();
+    let mut pc: Word = kani::any();
+    kani::assume(pc <= VM_MAX_RAM);
+    let (err0, pc0) = (err, pc);
+    let r = crate::interpreter::crypto::secp256r1_recover(&mut m, owner, crate::constraints::reg_key::RegMut::new(&mut err), crate::constraints::reg_key::RegMut::new(&mut pc), a, b, c);
+    let readable = b <= 160 - 64 && c <= 160 - 32;
+    let writable = a <= 160 - 64 && ssp <= a && a + 64 <= sp;
+    if readable && writable {
+        assert!(r.is_ok(), "C24 owned destination: ECR1 succeeds");
+        assert!(err == if ok { 0 } else { 1 } && pc == pc0 + 4, "C17 $err reports the library verdict; pc + 4");
+        let mut k = 0;
+        while k < 160 {
+            let inside = (k as u64) >= a && (k as u64) < a + 64;
+            let want = if inside { if ok { key } else { 0 } } else { fillb };
+            assert!(m.stack[k] == want, "C24 exactly the 64 destination bytes change (key on success, zeros on failure)");
+            k += 1;
+        }
+    } else {
+        assert!(r.is_err(), "C24 an unowned or unmapped destination (or unreadable operand) is refused on both library outcomes");
+        assert!(err == err0 && pc == pc0, "C24 refused ECR1 changes no register");
+        let mut k = 0; while k < 160 { assert!(m.stack[k] == fillb, "C24 refused ECR1 leaves memory unchanged"); k += 1; }
+    }
+    core::mem::forget(m);
+}
+
+// (a harness `c23_rollback_restores_snapshot` - snapshot, symbolic writes in both regions, optional heap growth,
+// rollback(collect_rollback_data(..)) restores the snapshot - did not finish in CBMC within 40 minutes; rollback stays
+// outside the contracts, see seed C23-2.)
